@@ -10,7 +10,8 @@ _PRIMS_UNSAFE = ["getArrayLength_pinned", "getCompactArrayLength_pinned", "getCo
 _BRIDGE = ["getInt8_eq", "getInt16_eq", "getInt32_eq", "getInt64_eq", "arrayLengthTail_eq", "compactArrayLengthTail_eq",
            "getBoolTail_eq", "stringLengthTail_eq", "getRawBytes_eq", "peek_guard_eq", "peekInt8_guard_eq",
            "lengthFieldDecodeTail_eq", "lengthFieldCheck_eq", "varintLengthFieldCheck_eq", "decodeTrailing_eq",
-           "versionedDecodeTrailing_eq", "headerLengthCheck_eq", "getHeaderLength_eq"]
+           "versionedDecodeTrailing_eq", "headerLengthCheck_eq", "getHeaderLength_eq",
+           "compactArrayLengthModel_is_model", "compactStringTail_eq", "compactNullableStringTail_eq"]
 
 CFG = dict(
     lean_modules=["SaramaVerif.Model.Decoder", "SaramaVerif.Model.DecoderFmt", "SaramaVerif.Lemmas.C10",
@@ -25,7 +26,7 @@ CFG = dict(
                        "Props.C10.loop_progress", "Props.C10.loop_never_hangs"] +
                       ["Bridge.C10." + b for b in _BRIDGE],
     # n = budget of decode operations per harness run (the positional core mutations always run in full)
-    n={"quick": 300000, "thorough": 8000000, "search": 300000},
+    n={"quick": 1000000, "thorough": 8000000, "search": 300000},
     thorough_seeds=3,
     timeout={"quick": 600, "thorough": 3000},
     level="proof",
@@ -50,13 +51,14 @@ CFG["manifest"] = dict(
          "safety theorem of the repaired variant; dec_total_safe: every decoder built from safe primitives, guarded counted loops, pushed "
          "length/CRC fields, sub-decoders and remaining()-loops is total, never hangs and allocates <= cost(f) bytes per input byte; "
          "length_mismatch_is_error, crc_mismatch_is_error, trailing_bytes_is_error, response_size_capped, loop progress. "
-         "Tie: 18 bridge obligations re-translate the bounds logic of the getters / checks from /repo on every run; the complete getters, "
+         "Tie: 21 bridge obligations re-translate the bounds logic of the getters / checks from /repo on every run; the complete getters, "
          "push/pop, the header, CRC-32 and five decode methods written in the combinator language (Record, member metadata/assignment, sticky "
          "user data V0/V1, MetadataResponse v0) run differentially against the compiled model; every response type x version, the header, "
          "RecordBatch/Records/Record/MessageSet/Message, group member data and sticky user data are attacked in capped subprocesses with "
          "truncation at every position, every 4/2/1-byte position set to -1/-2/0/huge/remainder+1, oversized varints, bit flips and random bytes "
          "(oracle: never panic / oversize allocation / hang; trailing bytes rejected; a mutated batch never yields different records).",
-    note="The pinned tree violates the property (known_findings.d/C10.json: one entry per entry point x outcome x panic site). "
+    note="The tree as pinned violated the property (known_findings.d/C10.json: one entry per entry point x outcome x panic site, all repaired by "
+         "fix commits in /repo; the model keeps both variants and the harness observes which one the tree under test has). "
          "Response decoders other than the five modelled formats are covered by the generic theorem only through the hypothesis `Good` "
          "(their loop heads are observed by the harness, not extracted). Decompression libraries are observed only. "
          "Trusted: Lean kernel; translator tools/extract + GoSem.lean; harness, worker protocol and line protocol.",
